@@ -109,6 +109,7 @@ type State struct {
 	dead   bool
 	events []string
 	panics []*panicRec
+	extRes []replayVar      // results chosen by the environment (assumed-contract calls) on this path
 	defs   map[string]*Term // atomic term (printed) -> defining term, from assumed equations
 	bnd    *boundCtx
 }
@@ -127,6 +128,7 @@ func (st *State) clone() *State {
 	}
 	n.trace = append([]string{}, st.trace...)
 	n.events = append([]string{}, st.events...)
+	n.extRes = append([]replayVar{}, st.extRes...)
 	if st.bnd != nil {
 		n.bnd = &boundCtx{lo: map[string]*big.Int{}, hi: map[string]*big.Int{}, lin: append([]*Term{}, st.bnd.lin...)}
 		for k, v := range st.bnd.lo {
